@@ -1066,13 +1066,13 @@ impl<'env> Executor<'env> {
         out: &mut Output,
         ignore_missing: bool,
     ) -> Result<(), Error> {
+        // an object that can be iterated is a list of choices, anything else is
+        // a single name (which then has to be a string)
         let obj = name.as_object();
         let choices = obj
             .as_ref()
             .and_then(|d| d.try_iter())
-            .into_iter()
-            .flatten()
-            .chain(obj.is_none().then(|| name.clone()));
+            .unwrap_or_else(|| Box::new(Some(name.clone()).into_iter()));
 
         let mut templates_tried = vec![];
         for choice in choices {
